@@ -162,6 +162,7 @@ type Sim struct {
 	byGoid  map[int64]*Task
 	env     envHeap
 	envSeq  uint64
+	lineage map[[2]int]*[8]byte // race builds: per (node, incarnation) token, see grant_race.go
 	readySq uint64
 	wake    chan struct{}
 	step    int
@@ -357,11 +358,14 @@ func (s *Sim) spawn(parent *Task, node, inc int, pid, name string, f func()) *Ta
 	t := &Task{ID: id, Node: node, Inc: inc, Name: name, grant: make(chan struct{}, 1), state: stReady, site: "start", sim: s}
 	s.tasks = append(s.tasks, t)
 	s.mu.Unlock()
-	go func() {
+	// started by the environment (scheduler context), not by a task of the system
+	envCtx := parent == nil && s.self() == nil
+	run := func() {
 		g := goid()
 		s.mu.Lock()
 		s.byGoid[g] = t
 		s.mu.Unlock()
+		noteGoid(g, node)
 		defer func() {
 			r := recover()
 			var stack string
@@ -390,12 +394,22 @@ func (s *Sim) spawn(parent *Task, node, inc int, pid, name string, f func()) *Ta
 			}
 		}()
 		s.poke()
-		<-t.grant
+		t.waitGrant()
 		if t.isDead() {
 			return
 		}
-		f()
-	}()
+		if envCtx {
+			s.lineageAcquire(node, inc)
+		}
+		callForNode(node, f)
+	}
+	if envCtx {
+		raceOff()
+		go run()
+		raceOn()
+	} else {
+		go run()
+	}
 	return t
 }
 
@@ -459,7 +473,7 @@ func (t *Task) park(site string) {
 	t.seq = 0
 	s.mu.Unlock()
 	s.poke()
-	<-t.grant
+	t.waitGrant()
 	if t.isDead() {
 		t.die()
 	}
@@ -506,7 +520,7 @@ func (t *Task) Block(site string, target WaitTarget) {
 	t.waitMutex = target
 	s.mu.Unlock()
 	s.poke()
-	<-t.grant
+	t.waitGrant()
 	if t.isDead() {
 		t.die()
 	}
@@ -664,7 +678,7 @@ func (s *Sim) release(t *Task) {
 	t.state = stRunning
 	s.current = t
 	s.mu.Unlock()
-	t.grant <- struct{}{}
+	t.sendGrant()
 	synctest.Wait()
 	s.mu.Lock()
 	s.current = nil
@@ -694,6 +708,10 @@ type choice struct {
 // virtual time reaches deadline, or the step budget is exhausted. It returns
 // "cond", "deadline", "steps" or "idle" (nothing can ever happen again).
 func (s *Sim) RunUntil(deadline time.Duration, cond func() bool) string {
+	// race builds: the scheduler context neither acquires from nor releases to
+	// the goroutines of the system under test (see grant_race.go)
+	raceOff()
+	defer raceOn()
 	for {
 		synctest.Wait()
 		if cond != nil && cond() {
@@ -838,6 +856,8 @@ func (s *Sim) Idle(d time.Duration) string { return s.RunUntil(s.Now()+d, nil) }
 // Stop ends the run: every task exits at its next sim operation; parked and
 // blocked tasks are released now. Pollers get a little virtual time to notice.
 func (s *Sim) Stop() {
+	raceOff()
+	defer raceOn()
 	s.mu.Lock()
 	s.stopped = true
 	var victims []*Task
